@@ -93,4 +93,13 @@ KF_C04_MixedKindRange(inl, par, params) ==
   /\ par.k = "bool" /\ par.op = "AND" /\ Len(par.args) = 2 /\ par.args[1].k = "cmp" /\ par.args[1].op = ">"
   /\ par.args[2].k = "cmp" /\ par.args[2].op = "<"
   /\ Len(params) = 2 /\ params[1].ty # "str" /\ params[2].ty = "str"
+
+\* ---- C04-numeric-field-range ------------------------------------------------------------------------------
+\* A number in field position (1:[1 TO 2]) is not a column but a literal, so RenderParam turns it into a
+\* placeholder; rangParam then writes that placeholder twice (>= and <=) while its value is in the parameter
+\* list once: one more placeholder than parameters.  Signature: exactly that shape.
+KF_C04_NumericFieldRange(par, params, nplace) ==
+  /\ nplace = Len(params) + 1 /\ Len(params) >= 2 /\ params[1].ty # "str"
+  /\ par.k = "bool" /\ par.op = "AND" /\ Len(par.args) = 2
+  /\ par.args[1].k = "cmp" /\ par.args[1].l.k = "param" /\ par.args[2].k = "cmp" /\ par.args[2].l.k = "param"
 ========================================================================
